@@ -281,6 +281,10 @@ structure StaticModel (m : Model (Ext K)) : Prop where
   cons : ∀ c ∈ m.constraints,
     (∀ x ∈ varsOf c.lhs, inScope m.domain x) ∧ (∀ x ∈ varsOf c.rhs, inScope m.domain x) ∧ FinE c.lhs ∧ FinE c.rhs
 
+theorem StaticModel.ofLogic {m : Model (Ext K)} (h : LogicModel m m.domain) : StaticModel m :=
+  ⟨h.obj.vars, h.obj.fin, fun c hc => ⟨(h.cons c hc).lhs.vars, (h.cons c hc).rhs.vars, (h.cons c hc).lhs.fin,
+    (h.cons c hc).rhs.fin⟩⟩
+
 theorem collapseCheckAll_spec {m : Model (Ext K)} (hm : StaticModel m) {s s' : St (Ext K)}
     (hinv : LoopInvD m.domain s) (h : collapseCheckAll m s = .ok ((), s')) :
     ChkOK m.domain s s' (NCModelAt m) := by
